@@ -53,6 +53,19 @@ pub fn fake_try_next_u64(_r: &mut rand::rngs::ThreadRng) -> Result<u64, std::con
     }
 }
 
+// `ProtocolError::Http(reqwest::Error)` cannot be constructed without a live connection; its two
+// predicates walk `dyn Error::source()` chains (hundreds of virtual-call candidates per step).
+pub fn reqwest_pred_false(_e: &reqwest::Error) -> bool {
+    false
+}
+
+// The drop glue of ProtocolError decodes the bit-packed io::Error representation (Network / Cache(Io)
+// variants) through a 42-way `ErrorKind::from_prim`; it accounted for 55% of all symex steps.  No
+// io::Error is ever constructed by the retry-loop harnesses, so the decoded kind is irrelevant.
+pub fn error_kind_from_prim_other(_p: u32) -> Option<std::io::ErrorKind> {
+    Some(std::io::ErrorKind::Other)
+}
+
 // ---- outcome alphabet -------------------------------------------------------------------------
 pub const K_OK: u8 = 0;
 pub const K_TIMEOUT: u8 = 1;
@@ -165,7 +178,7 @@ pub fn run<const N: usize>(policy: &RetryPolicy, outs: &[Outcome; N]) -> (Result
         assert!(k < N, "operation attempted more than max_attempts + 1 times");
         std::future::ready(realise(outs[if k < N { k } else { 0 }]))
     });
-    let res = block_on(fut, 2);
+    let res = block_on(fut, 1);
     match res {
         Some(r) => (r, calls),
         None => {
@@ -224,8 +237,13 @@ fn c14_should_retry_table() {
 }
 
 // ---- the retry loop, jitter off ---------------------------------------------------------------
+// $init/$max/$m: expressions producing the policy (symbolic, or one point of the property's grid);
+// $exact: also compare every un-hinted wait with the reference back-off sequence.  Only done for
+// concrete policies: with symbolic Durations/multiplier the comparison is a miter of two f64
+// multiply/convert circuits that the SAT back end does not finish (measured: > 25 min with a symbolic
+// multiplier, > 15 min with a constant multiplier and symbolic Durations).
 macro_rules! retry_loop_nojitter {
-    ($name:ident, $maxa:expr, $unwind:expr) => {
+    ($name:ident, $maxa:expr, $unwind:expr, $init:expr, $max:expr, $m:expr, $exact:expr) => {
         #[kani::proof]
         #[kani::unwind($unwind)]
         #[kani::stub(tracing_core::callsite::DefaultCallsite::interest, interest_never)]
@@ -234,14 +252,18 @@ macro_rules! retry_loop_nojitter {
         #[kani::stub(std::fmt::format, crate::stubs::fmt_format_empty)]
         #[kani::stub(rand::rngs::thread::rng, fake_thread_rng)]
         #[kani::stub(<rand::rngs::ThreadRng as rand::TryRng>::try_next_u64, fake_try_next_u64)]
+        #[kani::stub(reqwest::Error::is_timeout, reqwest_pred_false)]
+        #[kani::stub(reqwest::Error::is_connect, reqwest_pred_false)]
+        #[kani::stub(std::io::ErrorKind::from_prim, error_kind_from_prim_other)]
         fn $name() {
             const MAXA: u32 = $maxa;
             const N: usize = MAXA as usize + 2;
+            const EXACT: bool = $exact;
             let max_attempts: u32 = kani::any();
             kani::assume(max_attempts <= MAXA);
-            let initial = any_duration();
-            let max = any_duration();
-            let m = f64::from_bits(kani::any::<u64>());
+            let initial: Duration = $init;
+            let max: Duration = $max;
+            let m: f64 = $m;
             let mut outs = [Outcome { kind: 0, val: 0, code: 100, hint: Duration::ZERO }; N];
             let mut i = 0;
             while i < N {
@@ -275,17 +297,6 @@ macro_rules! retry_loop_nojitter {
             assert!(same_result(&res, &outs[stop]), "must return the result of the last attempt made");
             assert!(clock::count() == stop, "exactly one wait between consecutive attempts");
 
-            // delays: reference back-off sequence (grows on every failed attempt, hinted or not)
-            let mut base = [Duration::ZERO; N];
-            let mut b = initial;
-            let mut k = 0;
-            while k < N - 1 {
-                base[k] = b;
-                if k < stop {
-                    b = spec_next_backoff(b, m, max);
-                }
-                k += 1;
-            }
             let j: usize = kani::any();
             kani::assume(j < N - 1);
             if j < stop {
@@ -293,29 +304,172 @@ macro_rules! retry_loop_nojitter {
                 if outs[j].kind == K_RATE_HINT {
                     assert!(d == outs[j].hint, "hinted wait must equal the Retry-After hint");
                 } else {
-                    assert!(d == base[j], "un-hinted wait must be min(initial * multiplier^k, max_backoff)");
-                    if j >= 1 && max.subsec_nanos() == 0 && max.as_secs() <= (1 << 53) {
-                        assert!(d <= max, "wait exceeds max_backoff");
+                    if j == 0 {
+                        assert!(d == initial, "first un-hinted wait must be initial_backoff");
                     }
-                    if j == 0 && initial > max {
-                        // KF (reported): the first wait is initial_backoff even when it exceeds max_backoff
-                    } else if j == 0 {
-                        assert!(d <= max, "first wait exceeds max_backoff");
+                    // (the first wait is initial_backoff even when that exceeds max_backoff: reported
+                    // separately by c14_kf_initial_exceeds_max)
+                    if (j >= 1 || initial <= max) && max.subsec_nanos() == 0 && max.as_secs() <= (1 << 53) {
+                        assert!(d <= max, "un-hinted wait exceeds max_backoff");
                     }
+                }
+            }
+            if EXACT {
+                // reference back-off sequence: grows on every failed attempt, hinted or not
+                let mut b = initial;
+                let mut k = 0;
+                while k < N - 1 {
+                    if k < stop {
+                        if outs[k].kind != K_RATE_HINT {
+                            assert!(clock::get(k) == b, "un-hinted wait must be min(initial * multiplier^k, max_backoff)");
+                        }
+                        b = spec_next_backoff(b, m, max);
+                    }
+                    k += 1;
                 }
             }
             kani::cover!(calls == MAXA as usize + 1 && stop == MAXA as usize && outs[stop].kind != K_OK, "budget exhausted");
             kani::cover!(stop >= 1 && outs[stop].kind == K_OK, "success after a retry");
-            kani::cover!(stop >= 1 && outs[0].kind == K_RATE_HINT && m.is_nan(), "hinted wait, NaN multiplier");
+            kani::cover!(stop >= 1 && outs[0].kind == K_RATE_HINT, "hinted wait");
             std::mem::forget(res);
         }
     };
 }
 
-// @family prop=C14 tier=quick timeout=900 role=retry-loop-nojitter
+// @family prop=C14 tier=quick timeout=900 role=retry-loop-control
 // @bounds max_attempts symbolic 0..=MAXA (name: a<MAXA>), outcome sequence of length MAXA+2 symbolic over {Ok(v), Timeout, ServiceUnavailable, RateLimited{None}, RateLimited{Some(any Duration)}, InvalidKey, Parse, HttpStatus(100..=999), ServerError(100..=999), AllHostsFailed, RangeNotSupported}; initial_backoff any Duration (incl. 0 and > max_backoff); max_backoff any Duration < 2^62 s; multiplier any f64 bit pattern that is not < 0 (NaN, +inf, -0.0, subnormals included); jitter off
-// @encodes cascette_protocol::retry::RetryPolicy::execute, cascette_protocol::error::ProtocolError::should_retry, cascette_protocol::error::ProtocolError::retry_after_hint
-// @assumes hook H2: retry::sleep records the delay instead of tokio::time::sleep; minimal executor (poll budget 2, noop waker); tracing neutralised (3 stubs); fmt::format stubbed to empty; region: multiplier not negative and max_backoff < 2^62 s (complement: c14_kf_* harnesses)
-// @catches attempt counter off by one (`>` vs `>=`), rate-limited attempts not consuming budget, retry after a non-retryable error / after Ok, wrong result returned (first instead of last error), hint ignored or applied to un-hinted errors, back-off not clamped / clamped with max instead of min / multiplier dropped / growth skipped on hinted attempts, sleep dropped or doubled, waiting after the final attempt
-retry_loop_nojitter!(c14_retry_loop_nojitter_a2, 2, 5);
+// @encodes cascette_protocol::retry::RetryPolicy::execute, cascette_protocol::retry::sleep, cascette_protocol::error::ProtocolError::should_retry, cascette_protocol::error::ProtocolError::retry_after_hint
+// @assumes hook H2: retry::sleep records the delay instead of tokio::time::sleep; minimal executor (single poll, noop waker; Pending = hang = failure); tracing neutralised (3 stubs); fmt::format stubbed to empty; rand::rng / ThreadRng::try_next_u64 stubbed (not reached: jitter off); reqwest::Error::is_timeout/is_connect stubbed to false (ProtocolError::Http is never constructed); io::ErrorKind::from_prim stubbed (only reached from the drop glue of io::Error, which is never constructed); region: multiplier not negative and max_backoff < 2^62 s (complement: c14_kf_* harnesses)
+// @catches attempt counter off by one (`>` vs `>=`), rate-limited attempts not consuming budget, retry after a non-retryable error / after Ok, wrong result returned (first instead of last error), hint ignored or applied to un-hinted errors, back-off not clamped / clamped with max instead of min, sleep dropped or doubled, waiting after the final attempt, panic for NaN / inf / subnormal multipliers
+retry_loop_nojitter!(c14_retry_loop_control_a1, 1, 4, any_duration(), any_duration(), f64::from_bits(kani::any::<u64>()), false);
 // @end
+
+// @family prop=C14 tier=thorough timeout=3300 mem=24 role=retry-loop-control-deep
+// @bounds as c14_retry_loop_control_a1 with max_attempts symbolic 0..=MAXA (a2: 0..=2, 4 outcomes; a3: 0..=3, 5 outcomes)
+// @encodes cascette_protocol::retry::RetryPolicy::execute, cascette_protocol::retry::sleep, cascette_protocol::error::ProtocolError::should_retry, cascette_protocol::error::ProtocolError::retry_after_hint
+// @assumes as c14_retry_loop_control_a1
+retry_loop_nojitter!(c14_retry_loop_control_a2, 2, 5, any_duration(), any_duration(), f64::from_bits(kani::any::<u64>()), false);
+retry_loop_nojitter!(c14_retry_loop_control_a3, 3, 6, any_duration(), any_duration(), f64::from_bits(kani::any::<u64>()), false);
+// @end
+
+const fn ms(n: u64) -> Duration {
+    Duration::from_millis(n)
+}
+// @family prop=C14 tier=quick timeout=900 role=retry-loop-growth-grid
+// @bounds max_attempts symbolic 0..=3, 5 outcomes symbolic over the full alphabet (hints any Duration), jitter off; policy = one concrete grid point per harness: default (100 ms, 10 s, x2), clamp (4 s, 10 s, x2: 4, 8, 10, 10), shrink (8 s, 10 s, x0.5), nan (1 s, 10 s, NaN -> max), zero (0, 10 s, x2)
+// @encodes cascette_protocol::retry::RetryPolicy::execute, cascette_protocol::retry::sleep
+// @assumes as c14_retry_loop_control_a1; the reference back-off step is `b*m < max ? b*m : max` evaluated in f64 seconds and rounded to ns (the documented formula), iterated on every failed attempt (hinted or not)
+// @catches multiplier dropped / applied twice / applied before the first wait, growth skipped on hinted attempts, clamp with max() instead of min(), clamp against initial instead of max_backoff, back-off reset between attempts
+retry_loop_nojitter!(c14_retry_loop_growth_default, 3, 6, ms(100), ms(10_000), 2.0, true);
+retry_loop_nojitter!(c14_retry_loop_growth_clamp, 3, 6, ms(4_000), ms(10_000), 2.0, true);
+retry_loop_nojitter!(c14_retry_loop_growth_shrink, 3, 6, ms(8_000), ms(10_000), 0.5, true);
+retry_loop_nojitter!(c14_retry_loop_growth_nan, 3, 6, ms(1_000), ms(10_000), f64::NAN, true);
+retry_loop_nojitter!(c14_retry_loop_growth_zero, 3, 6, ms(0), ms(10_000), 2.0, true);
+// @end
+// @family prop=C14 tier=thorough timeout=3300 mem=24 role=retry-loop-growth-grid-rest
+// @bounds as c14_retry_loop_growth_default for further grid points: x1, x0 (collapses to 0), x10, x1e300 (huge -> clamp), +inf, x1.5 with fractional ns, initial > max (first wait unclamped, then max), max_attempts 0..=5 with 7 outcomes for the default policy
+// @encodes cascette_protocol::retry::RetryPolicy::execute, cascette_protocol::retry::sleep
+// @assumes as c14_retry_loop_growth_default
+retry_loop_nojitter!(c14_retry_loop_growth_m1, 3, 6, ms(250), ms(10_000), 1.0, true);
+retry_loop_nojitter!(c14_retry_loop_growth_m0, 3, 6, ms(250), ms(10_000), 0.0, true);
+retry_loop_nojitter!(c14_retry_loop_growth_m10, 3, 6, ms(250), ms(10_000), 10.0, true);
+retry_loop_nojitter!(c14_retry_loop_growth_mhuge, 3, 6, ms(250), ms(10_000), 1e300, true);
+retry_loop_nojitter!(c14_retry_loop_growth_minf, 3, 6, ms(250), ms(10_000), f64::INFINITY, true);
+retry_loop_nojitter!(c14_retry_loop_growth_m15, 3, 6, Duration::new(0, 333_333_333), ms(10_000), 1.5, true);
+retry_loop_nojitter!(c14_retry_loop_growth_init_gt_max, 3, 6, ms(20_000), ms(10_000), 2.0, true);
+retry_loop_nojitter!(c14_retry_loop_growth_default_a5, 5, 8, ms(100), ms(10_000), 2.0, true);
+// @end
+
+// ---- known-defect regions: one harness each ----------------------------------------------------
+// Under the model checker the two panicking std operations are replaced by checking twins whose
+// assertion carries the "KF:" label; in native replay the stubs are inactive and the real std
+// function panics on the same input.
+pub fn kf_from_secs_f64(secs: f64) -> Duration {
+    match Duration::try_from_secs_f64(secs) {
+        Ok(d) => d,
+        Err(_) => {
+            assert!(false, "KF: Duration::from_secs_f64 panics: next back-off is negative or does not fit a Duration");
+            Duration::ZERO
+        }
+    }
+}
+pub fn kf_add_assign(a: &mut Duration, b: Duration) {
+    match a.checked_add(b) {
+        Some(s) => *a = s,
+        None => kf_add_overflow(),
+    }
+}
+// separate fn: the driver's log parser needs a check name without spaces (not a trait-impl path)
+#[inline(never)]
+fn kf_add_overflow() {
+    assert!(false, "KF: delay += jitter overflows Duration and panics");
+}
+
+macro_rules! kf_harness {
+    ($name:ident, $body:expr) => {
+        #[kani::proof]
+        #[kani::unwind(3)]
+        #[kani::stub(tracing_core::callsite::DefaultCallsite::interest, interest_never)]
+        #[kani::stub(tracing::__macro_support::__is_enabled, is_enabled_false)]
+        #[kani::stub(tracing_core::event::Event::dispatch, dispatch_nop)]
+        #[kani::stub(std::fmt::format, crate::stubs::fmt_format_empty)]
+        #[kani::stub(rand::rngs::thread::rng, fake_thread_rng)]
+        #[kani::stub(<rand::rngs::ThreadRng as rand::TryRng>::try_next_u64, fake_try_next_u64)]
+        #[kani::stub(reqwest::Error::is_timeout, reqwest_pred_false)]
+        #[kani::stub(reqwest::Error::is_connect, reqwest_pred_false)]
+        #[kani::stub(std::io::ErrorKind::from_prim, error_kind_from_prim_other)]
+        #[kani::stub(std::time::Duration::from_secs_f64, kf_from_secs_f64)]
+        #[kani::stub(<std::time::Duration as std::ops::AddAssign>::add_assign, kf_add_assign)]
+        fn $name() {
+            let initial = any_duration();
+            let max = any_duration();
+            let m = f64::from_bits(kani::any::<u64>());
+            let jitter: bool = kani::any();
+            let first = any_outcome();
+            let w: u64 = kani::any();
+            kani::assume(first.kind != K_OK && spec_retryable(&first));
+            let outs = [first, Outcome { kind: K_OK, val: 1, code: 100, hint: Duration::ZERO }];
+            unsafe {
+                JITTER_WORDS[0] = w;
+                JITTER_DRAWS = 0;
+            }
+            let f: fn(&Outcome, Duration, Duration, f64, bool) -> bool = $body;
+            kani::assume(f(&first, initial, max, m, jitter));
+            let policy = RetryPolicy { max_attempts: 1, initial_backoff: initial, max_backoff: max, multiplier: m, jitter };
+            let (res, calls) = run::<2>(&policy, &outs);
+            assert!(calls == 2 && same_result(&res, &outs[1]), "one retry, then the success is returned");
+            assert!(clock::count() == 1, "one wait");
+            if !jitter && first.kind != K_RATE_HINT {
+                assert!(clock::get(0) <= max, "KF: first wait is initial_backoff even when it exceeds max_backoff");
+            }
+            // (no kani::cover! here: the driver replays the first generated playback test, which would
+            // be the cover witness instead of the failing input)
+            std::mem::forget(res);
+        }
+    };
+}
+
+// @harness prop=C14 tier=quick timeout=900 role=kf-negative-multiplier
+// @bounds one retryable failure (kind symbolic) then Ok, max_attempts = 1; multiplier any f64 < 0 (incl. -inf), initial_backoff any non-zero Duration <= max_backoff < 2^62 s, jitter off
+// @encodes cascette_protocol::retry::RetryPolicy::execute
+// @assumes as c14_retry_loop_control_a1; Duration::from_secs_f64 replaced by a twin that asserts (label KF:) where the real one panics; EXPECTED TO FAIL on the unchanged tree: genuine defect (negative CASCETTE_BACKOFF_MULTIPLIER panics in Duration::from_secs_f64 after the first failed attempt)
+// @catches (documents) panic for negative multipliers
+kf_harness!(c14_kf_negative_multiplier, |_o, i, mx, m, j| m < 0.0 && !j && i <= mx && !i.is_zero() && mx.as_secs() < TWO_POW_62);
+
+// @harness prop=C14 tier=quick timeout=900 role=kf-max-backoff-f64-overflow
+// @bounds one retryable failure then Ok, max_attempts = 1; max_backoff >= 2^64 - 1024 s (as f64 it is 2^64), initial_backoff <= max_backoff, multiplier any f64 >= 0 or NaN, jitter off
+// @encodes cascette_protocol::retry::RetryPolicy::execute
+// @assumes as c14_kf_negative_multiplier; EXPECTED TO FAIL on the unchanged tree: genuine defect (CASCETTE_MAX_BACKOFF near u64::MAX with a large product: max_backoff.as_secs_f64() rounds up to 2^64, which Duration::from_secs_f64 rejects)
+kf_harness!(c14_kf_max_backoff_overflow, |_o, i, mx, m, j| !(m < 0.0) && !j && i <= mx && mx.as_secs() >= u64::MAX - 1023);
+
+// @harness prop=C14 tier=quick timeout=900 role=kf-initial-exceeds-max
+// @bounds one retryable un-hinted failure then Ok, max_attempts = 1; initial_backoff > max_backoff (both < 2^62 s), multiplier any f64 not < 0, jitter off
+// @encodes cascette_protocol::retry::RetryPolicy::execute
+// @assumes as c14_kf_negative_multiplier; EXPECTED TO FAIL on the unchanged tree: genuine defect (the first wait is initial_backoff, never clamped to max_backoff)
+kf_harness!(c14_kf_initial_exceeds_max, |o, i, mx, m, j| !(m < 0.0) && !j && i > mx && i.as_secs() < TWO_POW_62 && o.kind != K_RATE_HINT);
+
+// @harness prop=C14 tier=quick timeout=900 role=kf-jitter-overflow
+// @bounds one rate-limited failure with a Retry-After hint >= 2^63 s then Ok, max_attempts = 1, jitter on (jitter word symbolic), multiplier 2.0, initial <= max < 2^62 s
+// @encodes cascette_protocol::retry::RetryPolicy::execute
+// @assumes as c14_kf_negative_multiplier; <Duration as AddAssign>::add_assign replaced by a twin that asserts (label KF:) where the real one panics; EXPECTED TO FAIL on the unchanged tree: genuine defect (a server-supplied Retry-After near u64::MAX seconds plus jitter overflows Duration; the default policy has jitter on)
+kf_harness!(c14_kf_jitter_overflow, |o, i, mx, m, j| m == 2.0 && j && i <= mx && mx.as_secs() < TWO_POW_62 && o.kind == K_RATE_HINT && o.hint.as_secs() >= (1 << 63));
